@@ -197,6 +197,9 @@ func Load() (*Loaded, error) {
 				L.Engine.Recursive[fn] = true
 			}
 		}
+		for key := range pc.PureFields {
+			L.Engine.PureFields[pc.PkgPath+"."+key] = true
+		}
 		for key := range pc.Transparent {
 			recv, name := "", key
 			if i := strings.Index(key, "."); i >= 0 {
